@@ -138,11 +138,29 @@ static char *keystr(const char *hexkey, unsigned char **tofree)
 
 static const char VMCI[] = "NUMBER(x)=1\nSYMBOL(s.t)=ff\nLENGTH(l)=3\nKEY=value\n";
 
-static kdump_ctx_t *setup(void)
+/* variant "P": a prepared context; "F": a new context, nothing set (addrxlat has no
+ * value although addrxlat.default / addrxlat.force have one); "B<n>": a new context
+ * whose VMCOREINFO has the n lines K0=v0 ... K<n-1>=v<n-1> (thousands of sibling
+ * attributes with prefix-related keys, sharing the 1024 hash buckets) */
+static kdump_ctx_t *setup(const char *variant)
 {
 	kdump_ctx_t *ctx = kdump_new();
 	kdump_attr_t a;
 	if (!ctx) return NULL;
+	if (variant[0] == 'F')
+		return ctx;
+	if (variant[0] == 'B') {
+		int n = atoi(variant + 1), i;
+		char *txt = malloc(24 * (size_t) n + 1), *q = txt;
+		kdump_blob_t *b;
+		for (i = 0; i < n; ++i) q += sprintf(q, "K%d=v%d\n", i, i);
+		b = kdump_blob_new_dup(txt, q - txt);
+		free(txt);
+		a.type = KDUMP_BLOB;
+		a.val.blob = b;
+		kdump_set_attr(ctx, "linux.vmcoreinfo.raw", &a);
+		return ctx;
+	}
 	kdump_set_number_attr(ctx, "file.set.number", 2);
 	a.type = KDUMP_BLOB;
 	if (!blobs[0]) blobs[0] = kdump_blob_new_dup(VMCI, sizeof VMCI - 1);
@@ -154,6 +172,12 @@ static kdump_ctx_t *setup(void)
 	kdump_set_string_attr(ctx, "linux.uts.sysname", "Linux");
 	kdump_set_number_attr(ctx, "addrxlat.force.phys_bits", 40);
 	return ctx;
+}
+
+static int is_variant(const char *t)
+{
+	return (t[0] == 'P' || t[0] == 'F') ? t[1] == 0
+		: (t[0] == 'B' && t[1] >= '0' && t[1] <= '9');
 }
 
 /* ---- white-box dump of the whole dictionary ---- */
@@ -228,17 +252,19 @@ static void run_case(char **ops, int nops)
 	int refset[MAXSLOT] = { 0 };
 	kdump_attr_iter_t iter[MAXSLOT];
 	int iterset[MAXSLOT] = { 0 };
-	int nctx = 1, i;
+	int nctx = 1, i, first = 0;
+	const char *variant = "P";
 
-	ctx[0] = setup();
-	for (i = 0; i < nops; ++i) {
+	if (nops && is_variant(ops[0])) { variant = ops[0]; first = 1; }
+	ctx[0] = setup(variant);
+	for (i = first; i < nops; ++i) {
 		char *f[8] = { 0 };
 		int nf = 0;
 		char *p = ops[i];
 		kdump_status st;
 		kdump_attr_t a;
 		unsigned char *t1 = NULL, *t2 = NULL;
-		if (i) putchar(' ');
+		if (i > first) putchar(' ');
 		while (nf < 8) {
 			f[nf++] = p;
 			p = strchr(p, ':');
@@ -370,12 +396,13 @@ int main(int argc, char **argv)
 	int ai = 1;
 	setvbuf(stdout, NULL, _IOLBF, 0);
 	if (argc > 1 && !strcmp(argv[1], "--tree")) {
-		kdump_ctx_t *ctx = setup();
-		printf("TREE");
+		const char *variant = argc > 2 ? argv[2] : "P";
+		kdump_ctx_t *ctx = setup(variant);
+		printf("TREE %s", variant);
 		tree_node(gattr(ctx, GKI_dir_root));
 		putchar('\n');
 		kdump_free(ctx);
-		kdump_blob_decref(blobs[0]);
+		if (blobs[0]) kdump_blob_decref(blobs[0]);
 		return 0;
 	}
 	if (argc > 2 && !strcmp(argv[1], "--fresh")) {
